@@ -225,3 +225,24 @@ Lemma firstn_app_skipn {A} (l : list A) a b : firstn a l ++ firstn b (skipn a l)
 Proof.
   revert l. induction a as [|a IH]; intros l; simpl; [reflexivity|]. destruct l as [|x l]; simpl; [rewrite firstn_nil; reflexivity|]. f_equal. apply IH.
 Qed.
+
+(* ---- appending at the end, runs of zeros ---- *)
+Lemma ovw_end l src : ovw l (len l) src = l ++ src.
+Proof.
+  unfold ovw, len. rewrite Nat2Z.id. rewrite firstn_all. rewrite skipn_all2 by lia. rewrite app_nil_r. reflexivity.
+Qed.
+
+Lemma zerosN_app a b : zerosN a ++ zerosN b = zerosN (a + b).
+Proof. induction a as [|a IH]; simpl; [reflexivity|]. rewrite IH. reflexivity. Qed.
+
+Lemma zerosZ_app a b : 0 <= a -> 0 <= b -> zerosZ a ++ zerosZ b = zerosZ (a + b).
+Proof. intros Ha Hb. unfold zerosZ. rewrite zerosN_app. f_equal. lia. Qed.
+
+Lemma firstn_zerosN a b : (a <= b)%nat -> firstn a (zerosN b) = zerosN a.
+Proof. revert b. induction a as [|a IH]; intros b H; [reflexivity|]. destruct b; [lia|]. simpl. rewrite IH by lia. reflexivity. Qed.
+
+Lemma firstn_zerosZ w c : 0 <= w <= c -> firstn (Z.to_nat w) (zerosZ c) = zerosZ w.
+Proof. intros H. unfold zerosZ. apply firstn_zerosN. lia. Qed.
+
+Lemma len_zerosZ n : 0 <= n -> len (zerosZ n) = n.
+Proof. intros H. unfold len. rewrite zerosZ_length. lia. Qed.
